@@ -44,6 +44,10 @@ MAX_LINE_POINTS = 1500
 
 def generate(rng, tier):
     nfr = rng.choice([1, 2, 2, 3, 3, 4, 6])
+    # SCALE: a long observing session (block-wise or bulk paths that only engage beyond some number of frames)
+    big = rng.random() < (0.06 if tier == "quick" else 0.12)
+    if big:
+        nfr = rng.choice([33, 40, 64, 70])
     same_t = rng.random() < 0.6
     geom = {"fchans": rng.choice([16, 24, 32, 48]), "df": rng.choice([1.0, 2.7939677238464355, 0.5]),
             "dt": rng.choice([1.0, 18.253611008, 2.5]), "fch1": rng.choice([6e9, 1.42e9, 8.421e9]),
@@ -84,8 +88,10 @@ def generate(rng, tier):
     bounding = None
     if rng.random() < 0.2:
         bounding = [rng.choice([0.1, 0.3]), rng.choice([0.6, 0.9])]
-    ordered = rng.random() < 0.3
+    ordered = rng.random() < 0.3 and not big
     sel = rng.choice(["all", "all", "all", "slice", "label" if ordered else "slice", "stride", "index"])
+    if big:
+        sel = rng.choice(["all", "all", "slice"])
     return {"seams": {"clock_origin": 1.7e9, "clock_jitter_seed": rng.randrange(1 << 20), "entropy_salt": rng.randrange(1 << 20),
                       "scratch": "c16"},
             "geom": geom, "frames": frames, "ordered": ordered, "order": rng.choice(["ABACAD", "ABABAB", "AABBCC"]),
